@@ -110,6 +110,20 @@ def r3(ctx):
                 ok_, why_ = lowers_to_min(ctx, fa, ws[0][0], ws[0][1], lambda g: g == HINT_, lambda g: g == "start")
                 gates = [d for d in fa.dom.get(ws[0][0], ()) if d in fa.reach(s, include_src=True)]
                 good = ok_ and any(fa.postdominates(d, s) for d in gates) and term_is_lit(fa.arg_origin(s, 3), 0)
+            else:
+                # the two in-memory steps in the other order: the hint is lowered first, and the bits
+                # are cleared on every way from there with nothing of this crate called in between
+                # (nothing that could fail, flush or observe the intermediate state)
+                wb = [(bb, si) for bb, si in assign_sites(fa, HINT_) if fa.can_reach(bb, s) or bb == s]
+                if wb:
+                    ok_, why_ = lowers_to_min(ctx, fa, wb[0][0], wb[0][1], lambda g: g == HINT_, lambda g: g == "start")
+                    gates = [d for d in fa.dom.get(wb[0][0], ()) if fa.dominates(d, s) and fa.postdominates(s, d)]
+                    quiet = False
+                    if gates:
+                        d0 = max(gates, key=lambda d: len(fa.dom.get(d, ())))
+                        between = [x for x in fa.reach(d0, include_src=True) if x != s and fa.can_reach(x, s)]
+                        quiet = not any(fa.blocks[x].term["k"] == "call" and fa.blocks[x].term.get("callee_local") for x in between)
+                    good = ok_ and bool(gates) and quiet and term_is_lit(fa.arg_origin(s, 3), 0)
             ctx.check(P, rule, "clear lowers the contiguous-length hint to the start of the cleared range", good, "if start < contiguous_length { contiguous_length = start } follows set_range(start, end-start, false) on every path",
                       "clearing at %s is not followed by lowering the contiguous-length hint" % loc(fa, s), [site_desc(fa, s)], key="C08|C08.R3|clear|hint not lowered")
     if n < 4 and ctx.crate.name == "hypercore":
@@ -238,7 +252,7 @@ def r5(ctx):
     if not need(ctx, P, rule, "DynamicBitfield::set_range: ways round the page loop", rounds):
         return
     # loop-carried variables: named locals assigned on some way round and defined before the loop
-    carried = sorted({l for p_ in rounds for l in p_.env if fa.body.local_name(l) and any(d[1] not in body for d in fa.body.defs.get(l, []))})
+    carried = sorted({l for p_ in rounds for l in p_.env if fa.body.local_name(l) and (1 <= l <= fa.body.arg_count or any(d[1] not in body for d in fa.body.defs.get(l, [])))})
     # roles by what every way round does to them
     def all_same(l):
         vs = {PV.render(p_.env.get(l, PV.lf_sym(fa.body.local_name(l)))) for p_ in rounds}
@@ -336,7 +350,7 @@ def fixed_set_range(ctx, prop, rule):
     rounds = [p_ for p_ in paths if p_.end == "stop"]
     if not need(ctx, prop, rule, "FixedBitfield::set_range: ways round the word loop", rounds):
         return
-    carried = sorted({l for p_ in rounds for l in p_.env if l not in consts and fa.body.local_name(l) and any(d[1] not in body for d in fa.body.defs.get(l, []))})
+    carried = sorted({l for p_ in rounds for l in p_.env if l not in consts and fa.body.local_name(l) and (1 <= l <= fa.body.arg_count or any(d[1] not in body for d in fa.body.defs.get(l, [])))})
     vals = {l: {PV.render(p_.env.get(l, PV.lf_sym(fa.body.local_name(l)))) for p_ in rounds} for l in carried}
     nm = lambda l: fa.body.local_name(l)
     off = [l for l in carried if vals[l] == {"0"}]
